@@ -156,7 +156,97 @@ def discover():
     kinds = {r["kind"] for r, _ in insts}
     if len(insts) < 10 or kinds != {"qfloat", "fixed", "numpy", "time"}:
         raise MachineryError("reflection found only %d instances of kinds %s" % (len(insts), sorted(kinds)))
+    insts = sorted(insts + handwritten(), key=lambda p: p[0]["id"])
     return insts, unfit
+
+
+# Quantisers written by hand outside the serialization combinators cannot be found through a class: they are
+# declared here (what they are on the wire, and how the real code is entered), and source_candidates() lists every
+# function of hippolyzer/lib/base that multiplies or divides by a quantiser-looking constant so that an
+# undeclared one shows up in the evidence.
+def _vertex_weights():
+    import hippolyzer.lib.base.mesh as mesh
+    import hippolyzer.lib.base.serialization as se
+    cls = mesh.VertexWeights
+
+    def dec(r):
+        got = se.BufferReader("<", struct.pack("<BHB", 3, r, cls.INFLUENCE_TERM)).read(cls)
+        if len(got) != 1 or got[0][0] != 3:
+            raise ValueError("expected one influence of joint 3, got %r" % (got,))
+        return got[0][1]
+
+    def enc(x):
+        w = se.BufferWriter("<")
+        w.write(cls, [(3, x)])
+        joint, raw, term = struct.unpack("<BHB", w.copy_buffer())
+        if joint != 3 or term != cls.INFLUENCE_TERM:
+            raise ValueError("unexpected framing")
+        return raw
+    return dec, enc
+
+
+HANDWRITTEN = [
+    {"id": "VertexWeights:U16[0,1]/65535 (mesh.py, skin weights)", "wire": (0, 65535), "lower": 0.0, "upper": 1.0, "steps": 65535,
+     "codec": _vertex_weights, "source": {"mesh:VertexWeights.serialize", "mesh:VertexWeights.deserialize"}},
+]
+
+
+# multiplications / divisions by such constants that were read and are not float quantisation
+REVIEWED_NOT_QUANTISERS = {
+    "objects:gridxy_to_handle": "integer region grid coordinates times 256 metres",
+    "udpdeserializer:UDPMessageDeserializer.zero_code_expand": "a run of 255 zero bytes",
+}
+
+
+def handwritten():
+    out = []
+    for hw in HANDWRITTEN:
+        try:
+            rec = _grid(hw["wire"][0], hw["wire"][1], Fraction(hw["lower"]), Fraction(hw["upper"]), hw["steps"])
+            hw["codec"]()
+        except Exception as e:
+            raise MachineryError("hand-written quantiser %s cannot be reached: %s: %s" % (hw["id"], type(e).__name__, e))
+        rec.update(kind="hand", unit="1", zm=False, closed=True, id=hw["id"])
+        out.append((rec, {"obj": None, "codec": hw["codec"], "lower": hw["lower"], "upper": hw["upper"], "n_objects": 1, "objects": []}))
+    return out
+
+
+def source_candidates():
+    """Functions of hippolyzer/lib/base (outside serialization.py) that multiply / divide by 255, 32767, 65535 ...:
+    -> (declared in HANDWRITTEN, not declared)."""
+    import ast
+    consts = {255, 256, 32767, 32768, 65535, 65536}
+    root = os.path.join(common.REPO, "hippolyzer", "lib", "base")
+    hits = set()
+    for dp, _, fns in sorted(os.walk(root)):
+        for fn in sorted(fns):
+            if not fn.endswith(".py") or fn == "serialization.py":
+                continue
+            try:
+                tree = ast.parse(open(os.path.join(dp, fn), "rb").read())
+            except Exception:
+                continue
+
+            def visit(node, qual):
+                for child in ast.iter_child_nodes(node):
+                    if isinstance(child, (ast.ClassDef, ast.FunctionDef, ast.AsyncFunctionDef)):
+                        visit(child, qual + [child.name])
+                        continue
+                    for sub in ast.walk(child):
+                        if isinstance(sub, ast.BinOp) and isinstance(sub.op, (ast.Mult, ast.Div)):
+                            for side in (sub.left, sub.right):
+                                if isinstance(side, ast.Constant) and isinstance(side.value, (int, float)) and \
+                                        not isinstance(side.value, bool) and side.value in consts:
+                                    hits.add("%s:%s" % (fn[:-3], ".".join(qual) or "<module>"))
+                        if isinstance(sub, ast.Assign) and isinstance(sub.value, ast.BinOp) and isinstance(sub.value.op, ast.Div) and \
+                                isinstance(sub.value.right, (ast.Constant, ast.Name)) and qual:
+                            r = sub.value.right
+                            if (isinstance(r, ast.Constant) and r.value in consts) or (isinstance(r, ast.Name) and ("MAX" in r.id or "STEP" in r.id)):
+                                hits.add("%s:%s" % (fn[:-3], ".".join(qual)))
+            visit(tree, [])
+    declared = set().union(*[hw["source"] for hw in HANDWRITTEN])
+    known = {h for h in hits if any(h == d or d.startswith(h + ".") or h.startswith(d.rsplit(".", 1)[0]) for d in declared)}
+    return sorted(known), sorted(h for h in hits - known if h not in REVIEWED_NOT_QUANTISERS)
 
 
 def discover_composites(insts):
@@ -616,6 +706,9 @@ def _codec(rec, h, duration=None):
             w.write(o, x)
             return st.unpack(w.copy_buffer())[0]
         return dec, enc, None
+    if rec["kind"] == "hand":
+        dec, enc = h["codec"]()
+        return dec, enc, None
     raise MachineryError("no scalar codec for kind %s" % rec["kind"])
 
 
@@ -886,6 +979,11 @@ def run(chk: Check):
     quick = chk.tier == "quick"
     insts, unfit = discover()
     chk.cov["instances"] = [dict(r, objects=h["n_objects"]) for r, h in insts]
+    known_src, unknown_src = source_candidates()
+    chk.cov["handwritten_quantisers"] = {"declared": [hw["id"] for hw in HANDWRITTEN], "source_sites_covered": known_src,
+                                          "source_sites_not_declared": unknown_src}
+    if unknown_src:
+        chk.notes.append("functions multiplying/dividing by a quantiser-looking constant that no declared hand-written quantiser covers: %s" % unknown_src)
     chk.cov["rule"] = ("one TLC state and one replayed table row per (instance, raw): decode, grid value, ends, zero, order and "
                        "re-encode compared with the row; instances found by reflection. non-trivial = rows at an end of the range, "
                        "rows meaning zero, and 256-raw buckets of the remaining rows (per instance and duration); composites: one TLC state "
